@@ -139,7 +139,7 @@ class Dgram:
 DEFAULT = {
     "suite": 0x1301, "offered": None, "ccid_len": 8, "scid_len": 8, "odcid_len": 8,
     "pn_len": 2, "pn_start": 0, "pn_gap": 1, "coalesce": "separate", "retry": False, "zero_rtt": False,
-    "ch_split": None, "ncid": None, "grease": False, "token": b"",
+    "ch_split": None, "ncid": None, "grease": False, "token": b"", "retry_token_len": None,
     "script": [("c", [(0, 100)]), ("s", [(0, 300)]), ("c", [(4, 50)]), ("s", [(0, 20)])],
     "before": (), "after": (), "stream_flags": None, "early_secret_in_log": None, "sh_split": None, "tail": None,
 }
@@ -282,7 +282,7 @@ class Conn:
         if s["retry"]:
             client_initials()
             rscid = rng.randbytes(8)
-            tok = rng.randbytes(24)
+            tok = rng.randbytes(s.get("retry_token_len") or 24)
             self.dgram("s", [retry_packet(self.odcid, self.ccid, rscid, tok)], tag="retry")
             # the client restarts: new Initial keys from the Retry SCID, packet numbers continue
             self.dcid_for["c"] = rscid
